@@ -203,7 +203,7 @@ def run_case(desc):
     # clustering: preset vs array
     def clusters(rad):
         cl = matid.SBC().get_clusters(at.copy(), radii=rad, bond_threshold=min(thr, 1.0))
-        return sorted(sorted(int(i) for i in c.indices) for c in cl)
+        return sorted((sorted(int(i) for i in c.indices), c.get_dimensionality()) for c in cl)
     ok1, c1 = call(clusters, preset)
     ok2, c2 = call(clusters, arr.copy())
     if ok1 != ok2 or (ok1 and c1 != c2):
